@@ -319,6 +319,14 @@ def batch_class(where, cls):
     return m
 
 
+def zeros_like_dtype(where, node, like):
+    """`torch.zeros_like(<like>, dtype=D)` -> source text of D (the KIND of the mask is a tie fact, not checked here)"""
+    if (isinstance(node, ast.Call) and ast.unparse(node.func) == "torch.zeros_like" and len(node.args) == 1
+            and ast.unparse(node.args[0]) == like and [k.arg for k in node.keywords] == ["dtype"]):
+        return ast.unparse(node.keywords[0].value)
+    raise Unrecognised(where, node, "mask allocation")
+
+
 def find(tree, kind, name, where):
     for n in ast.walk(tree):
         if isinstance(n, kind) and n.name == name:
@@ -368,9 +376,10 @@ def translate(repo):
         n0 = f.args.args[0].arg
         ok = (isinstance(ones, ast.Call) and ast.unparse(ones.func) == "torch.ones"
               and ast.unparse(ones.args[0]) == f"({n0}, {n0})"
-              and ast.unparse({k.arg: k.value for k in ones.keywords}.get("dtype")) == "torch.bool")
+              and "dtype" in {k.arg for k in ones.keywords})
     if not ok:
         raise Unrecognised(where, f, "ar_mask")
+    kinds = [("xformer/model.py:ar_mask", ast.unparse({k.arg: k.value for k in ones.keywords}["dtype"]))]
     w(f"Definition ar_mask_diagonal : Z := ({int_const(r.value.keywords[0].value)})%Z.")
     # data["mask"] as encoding._encode_batch builds it
     rel = "tak/model/encoding.py"
@@ -381,11 +390,12 @@ def translate(repo):
     loops = [s for s in ast.walk(f) if isinstance(s, ast.For) and any("mask" in ast.unparse(t) for t in ast.walk(s) if isinstance(t, ast.Subscript))]
     ret = f.body[-1]
     if not (len(lens) == 1 and ast.unparse(lens[0].value) == "len(encoded)" and len(zeros) == 1
-            and ast.unparse(zeros[0].value) == "torch.zeros_like(out, dtype=torch.bool)" and len(loops) == 1
+            and len(loops) == 1
             and ast.unparse(loops[0].target) == "(i, l)" and ast.unparse(loops[0].iter) == "enumerate(lens)"
             and len(loops[0].body) == 1 and isinstance(loops[0].body[0], ast.Assign)
             and isinstance(ret, ast.Return) and ast.unparse(ret.value) == "(out, mask)"):
         raise Unrecognised(where, f, "mask construction")
+    kinds.append((where, zeros_like_dtype(where, zeros[0].value, "out")))
     fills = [s for s in ast.walk(f) if isinstance(s, ast.Assign) and ast.unparse(s.targets[0]).startswith("out[i,")]
     if not (len(fills) == 1 and ast.unparse(fills[0].targets[0]) == "out[i, :len(encoded)]"):
         raise Unrecognised(where, f, "token rows are not written at [: len(encoded)]")
@@ -418,8 +428,10 @@ def translate(repo):
     if not (len(loops) == 1 and ast.unparse(loops[0].target) == "(i, b)" and ast.unparse(loops[0].iter) == "enumerate(batch)"
             and len(loops[0].body) == 2
             and inits.get("positions") == f"torch.zeros((len(batch), max(({L} for b in batch))), dtype=torch.long)"
-            and inits.get("mask") == "torch.zeros_like(positions, dtype=torch.bool)"):
+            and "mask" in inits):
         raise Unrecognised(where, f, "batch construction")
+    kinds.append((where, zeros_like_dtype(where, next(s.value for s in f.body if isinstance(s, ast.Assign)
+                                                      and ast.unparse(s.targets[0]) == "mask"), "positions")))
     s1, s2 = loops[0].body
     if not (isinstance(s1, ast.Assign) and ast.unparse(s1.targets[0]) == f"positions[i, :{L}]" and ast.unparse(s1.value) == "b.position"):
         raise Unrecognised(where, s1, "token rows")
@@ -469,6 +481,7 @@ def translate(repo):
         raise Unrecognised(where, ret, "return value")
     w("Definition mask_producers : list producer := " + cl(
         [f"{{| pr_name := {qs(n)}; pr_rows := {rk}; pr_mask := {m}; pr_argpos := {ap} |}}" for n, rk, m, ap in prods]) + ".")
+    w("Definition mask_dtypes : list (string * string) := " + cl([f"({qs(a)}, {qs(b)})" for a, b in kinds]) + ".")
     w(f"Definition wrapper_evaluate : evaluate_ir := {{| ev_moves_key := {qs(mk)}; ev_value_key := {qs(vk)}; "
       f"ev_row := {cz(mr)}; ev_softmax_dim := {cz(int_const(p.func.value.keywords[0].value))} |}}.")
     return "\n".join(out) + "\n"
